@@ -200,8 +200,12 @@ def layer_b_cases(unit, seed):
     if unit.get("variant") == "dt":
         est = [dict(s_, t=100 + 100000) for s_ in est]
     subs = subsets(len(est), unit["kmax"], unit["both"])
+    n_ = 0
     for es in subs:
         for gs in subs:
+            n_ += 1
+            if unit.get("variant") == "dt" and n_ % 3:
+                continue      # the time-offset variant covers every third sub-list pair
             for pol in (unit["policy"],):
                 with_int = unit["task"] == "detection" and (unit["both"] or unit["mode"] in ("CENTERDISTANCE", "IOU2D"))
                 for radii in ((None, RADII_B[unit["mode"]], RADII_B_INT[unit["mode"]]) if with_int else (None, RADII_B[unit["mode"]])):
@@ -310,7 +314,41 @@ def layer_m_cases(unit, seed):
 # ------------------------------------------------------------------------------------------------
 # Layer L: a few larger scenes (sizes beyond the exhaustively enumerated ones; fixed, not sampled)
 def layer_l_units(tier):
-    return [dict(layer="L", mode=m) for m in MODE_CLS]
+    return [dict(layer="L", mode=m) for m in MODE_CLS] + [dict(layer="T")]
+
+
+def layer_t_cases(unit):
+    """hand-built exact ties in the label-agnostic pass: the two best cells (0,1) and (1,0) hold exactly the same distance while the
+    cell (0,0) is excluded (other frame / beyond the radius); both list orders, both distance modes."""
+    ego = [10.0, -5.0, 0.0]     # no rotation: map coordinates are exact translations (the plane scenes below use a rotated ego as well)
+    base = dict(yaw=0.0, size=[2.0, 4.0, 1.5], z=0.0)
+    frames = [  # (estimates, ground truths)
+        ([dict(base, x=5.0, y=0.0, label="PEDESTRIAN"), dict(base, x=7.0, y=0.0, label="PEDESTRIAN", frame="map")],
+         [dict(base, x=7.0, y=1.0, label="CAR", frame="map"), dict(base, x=5.0, y=1.0, label="CAR")], None),
+        ([dict(base, x=0.0, y=0.0, label="PEDESTRIAN"), dict(base, x=21.0, y=1.0, label="PEDESTRIAN")],
+         [dict(base, x=21.0, y=0.0, label="CAR"), dict(base, x=0.0, y=1.0, label="CAR")], [5.0, 5.0]),
+        ([dict(base, x=0.0, y=0.0, label="UNKNOWN"), dict(base, x=30.0, y=2.0, label="UNKNOWN"), dict(base, x=60.0, y=0.0, label="PEDESTRIAN")],
+         [dict(base, x=30.0, y=0.0, label="CAR"), dict(base, x=0.0, y=2.0, label="CAR"), dict(base, x=60.0, y=2.0, label="CAR")], [4.0, 4.0]),
+    ]
+    # map-frame pairs behind / beside the ego whose estimate is longer than the ground truth: the plane distance depends on which side of
+    # the ground truth is the one nearest to the ego (front plane here), so a radius between the two candidate values separates them
+    for gx, gy, gyaw in ((-10.0, 0.5, 0.1), (3.0, -9.0, 1.45), (-6.0, 7.0, -0.8)):
+        ux, uy = math.cos(gyaw), math.sin(gyaw)
+        for shift in (0.4, -0.4):
+            frames.append(([dict(base, x=gx + shift * ux, y=gy + shift * uy, yaw=gyaw, size=[2.0, 6.0, 1.5], label="CAR", frame="map")],
+                           [dict(base, x=gx, y=gy, yaw=gyaw, size=[2.0, 4.0, 1.5], label="CAR", frame="map")], [1.0, 1.0]))
+    for ests, gts, radii in frames:
+        for i, s_ in enumerate(ests):
+            s_.update(uuid="e%d" % i, score=round(0.9 - 0.1 * i, 2))
+        for j, s_ in enumerate(gts):
+            s_.update(uuid="g%d" % j)
+        for mode in ("CENTERDISTANCE", "PLANEDISTANCE"):
+            for rev_e in (False, True):
+                for rev_g in (False, True):
+                    for pol in ("DEFAULT", "ALLOW_UNKNOWN"):
+                        for eg in ((ego,) if len(ests) > 1 else (ego, [100.0, 50.0, 0.8], [-40.0, 12.0, -2.5])):
+                            yield {"layer": "T", "dim": 3, "ests": list(reversed(ests)) if rev_e else ests, "gts": list(reversed(gts)) if rev_g else gts, "policy": pol,
+                                   "radii": radii, "task": "detection", "mode": mode, "tl": TL, "ego": list(eg)}
 
 
 def large_scene(seed, variant):
@@ -357,6 +395,8 @@ def cases_of(unit, seed):
         return layer_m_cases(unit, seed)
     if unit["layer"] == "L":
         return layer_l_cases(unit, seed)
+    if unit["layer"] == "T":
+        return layer_t_cases(unit)
     return layer_c_cases(unit)
 
 
